@@ -17,7 +17,7 @@
    see notes/C10.md for what is still open. *)
 From Coq Require Import List ZArith.
 From RtoscV Require Import Pretty.Tok Pretty.FloatFmt Pretty.PrintModel Pretty.ScanModel
-  Pretty.PrettyProofs Pretty.FloatProofs Pretty.RangeProofs Pretty.RunProofs Pretty.ListProofs Pretty.ArrayProofs Pretty.PrettyRegress.
+  Pretty.PrettyProofs Pretty.FloatProofs Pretty.SymBlobProofs Pretty.RangeProofs Pretty.RunProofs Pretty.ListProofs Pretty.ArrayProofs Pretty.PrettyRegress.
 Import ListNotations.
 Local Open Scope Z_scope.
 
@@ -88,8 +88,9 @@ Proof. exact elements_agree. Qed.
    finding D28 -; MIDI, colours; with the lossless option every finite float
    and double, printed as "<decimal> (<hexadecimal>)", in lists that do not
    contain both +0.0 and -0.0 of one type (nozmix: finding signed-zero-run, the
-   classifier's predicate); plain symbols, blobs, arrays among other values
-   and time tags are outside), the returned count
+   classifier's predicate); symbols printed bare (identifier-shaped, no reserved
+   word) and blobs of any length with their line breaks (goodx); arrays among
+   other values and time tags are outside), the returned count
    is the text length, the checker accepts with the number of slots the scanner
    then writes, the scanner consumes the whole text, and the slots expand to
    the original values. *)
@@ -200,8 +201,15 @@ Theorem C10_float_tokens : forall (dec2f dec2d : list Z -> Z) p,
      tok_core dec2f dec2d (VD b) (fmt_f p b ++ 100 :: [32; 40] ++ fmt_a b ++ [41])).
 Proof. exact (fun a b p => conj (tok_float a b p) (tok_double a b p)). Qed.
 
+(* bare symbols and blobs: both recognisers read the printed token back *)
+Theorem C10_symbol_blob_tokens : forall (dec2f dec2d : list Z -> Z),
+  (forall s, sym_plain s = true -> tok_core dec2f dec2d (VSym s) s) /\
+  (forall o d cols t w c, Forall byte_ok d -> print_blob o d cols = (t, w, c) ->
+     tok_core dec2f dec2d (VB d) t /\ w = len t).
+Proof. exact symbol_blob_tokens. Qed.
+
 (* non-vacuity: 1.5f six times (a compressed run), 0.1 as a double, the smallest
-   subnormal float, an int *)
+   subnormal float, an int, a bare symbol, a blob *)
 Theorem C10_float_nonvacuous :
   Forall (goodv ex_fl_opts) ex_fl_list /\ nozmix ex_fl_list /\
   exists text w, print_arg_vals ex_fl_opts ex_fl_list 0 = Some (text, w).
